@@ -104,6 +104,7 @@ Qed.
 Lemma SH_render_for body x len base : SH body -> forall vs i, SH (render_for_loop body x len base vs i).
 Proof.
   intros Hb; induction vs as [|v vs IH]; intros i s k W; [apply esim_refl|]. cbn [render_for_loop].
+  destruct (base s) as [b0| | |]; cbn [of_res]; try apply esim_refl.
   match goal with |- context [body (push_sandbox ?a s) k] =>
     specialize (Hb (push_sandbox a s) k (wfr_push_sandbox _ _)); destruct (body (push_sandbox a s) k) as [[o1 s1] k1] end.
   apply esim_pop_sandbox in Hb. destruct o1; try exact Hb.
